@@ -58,6 +58,22 @@ python3 tools/gen_manifest.py
 git add known-findings.json MANIFEST.json
 left=$(git diff --name-only --diff-filter=U)
 if [ -n "$left" ]; then echo "UNRESOLVED: $left"; exit 1; fi
+# dedupe dependency keys (two branches may add the same crate with different spellings)
+python3 - <<'PY'
+import re
+p='harness/Cargo.toml'
+out=[]; seen=set(); sect=None
+for l in open(p):
+    m=re.match(r'\[(.*)\]',l.strip())
+    if m: sect=m.group(1)
+    k=re.match(r'([A-Za-z0-9_-]+)\s*=',l)
+    if sect=='dependencies' and k:
+        if k.group(1) in seen: continue
+        seen.add(k.group(1))
+    out.append(l)
+open(p,'w').write(''.join(out))
+PY
+git add harness/Cargo.toml
 (cd harness && CARGO_NET_OFFLINE=true cargo build --offline 2>&1 | grep -E "^error" -A6 | head -20) || true
 git add harness/Cargo.lock 2>/dev/null || true
 git commit -qm "merge $b" && echo "merged $b"
